@@ -6,7 +6,7 @@ from fractions import Fraction
 from typing import Dict, List, Optional, Tuple
 
 from .. import algebra as A
-from ..abseval import (Cond, Const, Ctx, Evaluator, Inst, Leaf, NONE, Raised, Scalar, State, S, SymObj, Tup, Undecided,
+from ..abseval import (Cond, Const, Ctx, Evaluator, Inst, Leaf, Lst, NONE, Raised, Scalar, State, S, SymObj, Tup, Undecided,
                        cond_leaves, leaves)
 from ..check import Variant
 from ..loader import AnalysisError, Program, dotted, norm, parent
@@ -38,6 +38,10 @@ DECIDED = [
     'R6 the loop runs while x <= range + m with m (read from the condition and the definitions reaching it, '
     'evaluated at sample launch / look angles) at least the integration step whenever the recording step is: '
     'the sample that reaches the requested range is still examined',
+    'R7 one symbolic iteration of the integration loop with a row already on the card and the filter handing '
+    'back a sample: on every outcome that does not raise the card is the earlier row (the same object) '
+    'followed by exactly one new row built from the sample - a sample merged into or dropped in favour of an '
+    'earlier row is refuted',
 ]
 NOT_DECIDED = [
     'the number of rows, one row per multiple, strict monotonicity, the behaviour of the loop bound under '
@@ -365,6 +369,7 @@ def run(prog: Program, rep, thorough: bool) -> None:
     else:
         rep.ok('C03.R3', sr.where, 'at x = 0, t = 0 the sample returned is exactly the initial (time, position, velocity, mach)')
     check_extra_rows(prog, rep, F, 'C03.R5')
+    check_sample_becomes_row(prog, rep, F, 'C03.R7')
     check_loop_margin(prog, rep, F, 'C03.R6')
 
 
@@ -438,6 +443,62 @@ def check_loop_margin(prog: Program, rep, F: IntegrateFacts, rule: str) -> None:
                  f'row at the requested range is never recorded (a trajectory that has flattened by then)')
     else:
         rep.ok(rule, tc.where(F.loop), f'loop margin {margin!r} >= the integration step whenever the recording step is')
+
+
+TRUE_MARK = Const(True)
+
+
+def check_sample_becomes_row(prog: Program, rep, F: IntegrateFacts, rule: str) -> None:
+    """One symbolic iteration of the integration loop with a row already on the card and the filter handing back a
+    sample: on every outcome that does not raise, the card is the earlier row - the same object - followed by exactly one
+    new row built from the sample.  A sample merged into, or dropped in favour of, an earlier row loses a requested
+    distance."""
+    from .c01 import loop_iteration
+    from .flow import DENSITY_CALL
+    rep.rule(rule, 'a sample handed back by the filter becomes a row of its own', 1)
+    tc = F.mod
+    btd = prog.cls(C.M_TC, 'BaseTrajData') if 'BaseTrajData' in tc.classes else None
+
+    def symcall(ev_, fv, args, kwargs, st_):
+        if fv.path.endswith('.' + DENSITY_CALL):
+            return Tup([S('rho'), S('a')])
+        if fv.path.endswith('.should_record'):
+            fields = {'time': S('dt'), 'position': C.mk_vec(ev_, st_, prog, 'dx', 'dy', 'dz'),
+                      'velocity': C.mk_vec(ev_, st_, prog, 'dvx', 'dvy', 'dvz'), 'mach': S('dm')}
+            st_.env['$sampled'] = TRUE_MARK
+            return ev_.new_inst(st_, btd, fields) if btd is not None else SymObj('data')
+        return None
+    ev = Evaluator(prog, hooks={'symcall': symcall, 'call:_calculate_by_curve_and_mach_list': lambda ev_, func, args, kwargs, st_, sv: S('Cd'),
+                                **C.no_wrap_hooks()},
+                   opaque={'create_trajectory_row', 'spin_drift'})
+    earlier = SymObj('earlier_row')
+    env0: Dict[str, object] = {}
+    try:
+        st, _selfv, tree, _w = loop_iteration(prog, F, ev, Ctx(tc, F.func, None, 0), rows_before=[earlier], env_out=env0)
+    except Undecided as exc:
+        raise AnalysisError(f'one iteration with a sample recorded: {exc}') from exc
+    lst = env0.get('ranges')
+    problems = []
+    n_leaf = 0
+    for _path, leaf in leaves(tree):
+        if leaf.kind == 'raise' or not isinstance(lst, Lst) or leaf.state.env.get('$sampled') is not TRUE_MARK:
+            continue            # (a request without rows does not ask the filter at all)
+        n_leaf += 1
+        items = leaf.state.heap[lst.oid]['$items']
+        new_rows = [x for x in items if isinstance(x, SymObj) and x.path.startswith('create_trajectory_row')]
+        if not items or items[0] is not earlier:
+            problems.append(f'the row already on the card is replaced by {ev.describe(items[0]) if items else "nothing"}'[:160])
+        elif len(new_rows) != 1 or len(items) != 2:
+            problems.append(f'the card holds {len(items)} row(s) after a sample was handed back with one row on it: the sample does not '
+                            f'become a row of its own on some path')
+    if n_leaf == 0:
+        raise AnalysisError('one iteration with a sample recorded: no non-raising outcome')
+    if problems:
+        rep.fail(rule, tc.path, F.loop.lineno, F.func.qualname, 'sample-row', '; '.join(sorted(set(problems))[:2]) +
+                 ': a requested distance can be missing from the card')
+    else:
+        rep.ok(rule, tc.where(F.loop), f'on all {n_leaf} outcomes of one iteration the card is the earlier row followed by one new row built from '
+               f'the sample')
 
 
 def check_extra_rows(prog: Program, rep, F: IntegrateFacts, rule: str) -> None:
